@@ -211,8 +211,10 @@ def check_module(chk, text, stats, model_exe):
                 failing = "alias target is not the field the virtual field reads"
             chk.nontrivial(("winf", text, name))
         if failing:
-            chk.violation("input", {"input": text, "kind_of_input": "winf", "field": name,
-                                    "observed": real, "expected": failing})
+            stats["winf_failing"] += 1
+            if stats["winf_failing"] <= 8:
+                chk.violation("input", {"input": text, "kind_of_input": "winf", "field": name,
+                                        "observed": real, "expected": failing})
         if answers[i] is not None and i not in unmodelled and answers[i] != real:
             stats["winf_model_disagreements"] += 1
             if not failing and stats["winf_model_disagreements"] <= 6:
@@ -353,6 +355,9 @@ int main() {
                 stats["winf_cpp_unjudged"] += 1
                 continue
             if rl != exp:
+                stats["winf_cpp_failing"] += 1
+                if stats["winf_cpp_failing"] > 6:
+                    continue
                 chk.violation("input", {"input": text, "kind_of_input": "winf", "field": nm,
                                         "data": S.hexs(data), "value": v, "observed": rl,
                                         "expected": exp})
